@@ -433,6 +433,10 @@ def run_shard(ctx, spec):
     def mprop(seed, size):
         rnd = random.Random(seed)
         prog, src, globals0, pg = gen_program(rnd, size)
+        if rnd.random() < 0.5:
+            # the same program in a random layout: statements (block headers too) split over several physical lines
+            from pbt.checks.c10 import render_layout
+            src = render_layout(rnd, gp.program_token_lines(prog))[0].replace('\r\n', '\n')
         mutated, kind = mutate_program(rnd, src)
         res = check_mutant(src, mutated, kind)
         ctx.case(digest(mutated), True, ['mutant:' + kind, 'mutant-result:' + str(res)], {'text': mutated[:500], 'mutation': kind})
